@@ -270,7 +270,9 @@ TDestroy(ev) ==
 TFault(ev) ==
   /\ Report(ev, <<C("C07", CASE ev.e = "crash" -> "the process died during an API call"
                              [] ev.e = "timeout" -> "an API call did not terminate"
-                             [] OTHER -> "memory error reported during an API call")>>, "?", "?")
+                             [] OTHER -> "memory error reported during an API call")>>,
+            IF "h" \in DOMAIN ev /\ ev.h \in DOMAIN objs THEN objs[ev.h].kind ELSE "?",
+            IF "h" \in DOMAIN ev /\ ev.h \in DOMAIN objs THEN objs[ev.h].origin ELSE "?")
   /\ UNCHANGED <<objs, tabs, iters, imgs, digs>>
 
 -----------------------------------------------------------------------------
